@@ -388,6 +388,11 @@ def random_labels(rng, n, style):
             if s[0] in "_.-" or s[-1] in "_.-":
                 s = "a" + s + "b"
             s = s[:10]
+        elif style == "numeric":
+            # numerals that are NOT the taxon's own 1-based position (row labels are labels, never taxon numbers)
+            s = str(rng.choice([2, 3, 1, 10, 4, 7, 12, 5, 100, 6, 8, 9, 11]))
+            if s == str(k + 1) and n > 1:
+                continue
         elif style == "long":
             s = "L%02d" % k + "".join(rng.choice(PLAIN[:52]) for _ in range(rng.randint(8, 17)))
         elif style == "space":
@@ -410,7 +415,7 @@ def random_labels(rng, n, style):
 
 
 def label_ok(style, fmt, lay):
-    if style in ("plain", "long"):
+    if style in ("plain", "long", "numeric"):
         return True
     if style == "space":
         return fmt in ("nexus", "nexml", "fasta") or (fmt == "phylip" and (lay.get("strict") or lay.get("multispace")))
@@ -678,7 +683,7 @@ def random_cases(ctx, n_mat, n_ds):
     rng = random.Random(ctx.seed * 7919 + 9)
     routes = ["from_dict", "concatenated", "exported", "exported_typed", "parsed_nexus", "parsed_phylip", "parsed_fasta", "parsed_nexml",
               "typed_self_concatenated", "typed_self_extended", "typed_aba", "observed_then_rows", "observed_then_columns"]
-    styles = ["plain", "plain", "long", "space", "punct", "xml"]
+    styles = ["plain", "plain", "long", "space", "punct", "xml", "numeric"]
     out = []
     for i in range(n_mat):
         t = X.TYPES[i % len(X.TYPES)]
